@@ -1488,3 +1488,17 @@ package rockredis
 //@   callassert NewDBRangeIterator sameSlice(arg1, keyInfo.RangeStart) && sameSlice(arg2, keyInfo.RangeEnd) && arg3 == common.RangeROpen && !arg4
 //@   ensures result2 == nil && (ghost(collexpired, db) == 1 || ghost(collabsent, db) == 1) ==> result0 == 0 && len(result1) == 0
 //@   modifies *
+
+// ---- LRANGE (C08, C09): Redis index normalisation (negative = from the end, clamped to the list), then exactly the
+// positions head+start .. head+stop are read: closed range between the two element keys, no offset, limit =
+// stop-start+1, forwards; nothing for an expired / absent list (partial contract: these assertions only) ----
+//@ property C08 C09
+//@ func (db *RockDB) LRange(key []byte, start int64, stop int64) ([][]byte, error)
+//@   opt only=ASSERT,POST
+//@   opt autoloops
+//@   callassert NewDBRangeLimitIterator max(0, ite(old(start) < 0, ghost(curlen, db) + old(start), old(start))) <= min(ghost(curlen, db) - 1, ite(old(stop) < 0, ghost(curlen, db) + old(stop), old(stop))) && max(0, ite(old(start) < 0, ghost(curlen, db) + old(start), old(start))) < ghost(curlen, db)
+//@   callassert NewDBRangeLimitIterator arg5 == min(ghost(curlen, db) - 1, ite(old(stop) < 0, ghost(curlen, db) + old(stop), old(stop))) - max(0, ite(old(start) < 0, ghost(curlen, db) + old(start), old(start))) + 1
+//@   callassert NewDBRangeLimitIterator headSeq == ghost(curhead, db) + max(0, ite(old(start) < 0, ghost(curlen, db) + old(start), old(start))) && tailSeq == ghost(curhead, db) + ghost(curlen, db) - 1 && arg3 == common.RangeClose && arg4 == 0 && !arg6
+//@   callassert lEncodeListKey sameSlice(arg0, table) && sameSlice(arg1, rk) && (arg2 == headSeq || arg2 == tailSeq)
+//@   ensures result1 == nil && ghost(curexists, db) == 0 ==> len(result0) == 0
+//@   modifies *
